@@ -90,11 +90,13 @@ struct OptStr {     // const char* argument that may be null
 static OptStr optstr(const Sx& x) { OptStr o; if (!x.is("-")) { o.has = true; o.s = unhex(x); } return o; }
 
 // ------------------------------------------------------------------ call-back channel
+static void prescan(const Sx& x);
 static Sx callback(const std::string& line) {
   std::cout << line << std::endl;
   std::string reply;
   if (!std::getline(std::cin, reply)) throw std::runtime_error("pydrv: call-back channel closed");
   Sx r = parse_line(reply);
+  prescan(r);
   if (r.head() == "err") throw std::runtime_error(unhex(r[1]));
   if (r.head() != "ok") throw std::runtime_error("pydrv: malformed call-back reply");
   return r;
@@ -170,6 +172,27 @@ static std::shared_ptr<void> mem_get(const Sx* keyatom, const std::string& data,
   }
   return ptr;
 }
+// Register every keyed buffer definition of a request (or call-back reply) up front, so that the order in which
+// the builder visits nodes (content before offsets, unspecified argument order) does not matter: a later node
+// may name a key whose data appears textually earlier *or later* in the same line.
+static void prescan(const Sx& x) {
+  if (x.atom) return;
+  const std::string h = x.head();
+  const Sx* key = nullptr; const Sx* data = nullptr;
+  if ((h == "i8" || h == "u8" || h == "i32" || h == "u32" || h == "i64") && x.size() == 3 && x[1].atom && x[2].atom) { data = &x[1]; key = &x[2]; }
+  else if (h == "np" && x.size() > 10 && x[8].atom && x[10].atom) { data = &x[8]; key = &x[10]; }
+  if (key != nullptr && data->a.size() > 1 && data->a[0] == 'x' && g_mem.find(key->a) == g_mem.end()) {
+    std::string raw;
+    raw.resize((data->a.size() - 1) / 2);
+    for (size_t i = 0; i < raw.size(); i++) {
+      auto hv2 = [](char c) -> int { return (c >= '0' && c <= '9') ? c - '0' : (c >= 'a' && c <= 'f') ? c - 'a' + 10 : c - 'A' + 10; };
+      raw[i] = (char)((hv2(data->a[1 + 2 * i]) << 4) | hv2(data->a[2 + 2 * i]));
+    }
+    mem_get(key, raw, true);
+  }
+  for (auto& e : x.l) prescan(e);
+}
+
 // is [p, p+n) inside an input buffer?  -> key and offset
 static bool mem_find(const void* p, size_t n, std::string& key, size_t& off) {
   if (g_mem_by_addr.empty() || n == 0) return false;
@@ -1196,6 +1219,7 @@ int main() {
     try {
       Sx cs = parse_line(line);
       id = cs[0].a;
+      prescan(cs);
       std::string out = handle(cs);
       std::cout << "(" << id << " ok " << out << ")" << std::endl;
     } catch (std::invalid_argument& e) {
